@@ -279,17 +279,18 @@ func (g *descGen) strctIn(depth int, used map[string]bool) *Desc {
 
 // ValCfg tunes the value generator.
 type ValCfg struct {
-	BadUTF8      bool                          // strings may be ill-formed UTF-8
-	NonFinite    bool                          // floats may be NaN / Inf
-	AnyCanonical bool                          // interface values hold only nil, bool, string, float64, []any, map[string]any
-	AnyDescs     Cfg                           // type universe for interface contents when !AnyCanonical
-	PoolGen      map[string]func(*rapid.T) Val // value generators for pool kinds
-	AnyKeyPool   []string                      // extra kinds for interface-typed map keys
-	MaxLen       int                           // max container length (default 3)
-	RawInvalid   bool                          // jsontext.Value leaves may hold arbitrary bytes
-	TimeWide     bool                          // times outside year 0..9999
-	Zones        bool                          // times carry fixed zones with arbitrary (also hostile) names
-	ZoneMinutes  bool                          // times carry unnamed fixed zones at whole-minute offsets up to +-23:59
+	BadUTF8         bool                          // strings may be ill-formed UTF-8
+	NonFinite       bool                          // floats may be NaN / Inf
+	AnyCanonical    bool                          // interface values hold only nil, bool, string, float64, []any, map[string]any
+	AnyDescs        Cfg                           // type universe for interface contents when !AnyCanonical
+	PoolGen         map[string]func(*rapid.T) Val // value generators for pool kinds
+	AnyKeyPool      []string                      // extra kinds for interface-typed map keys
+	MaxLen          int                           // max container length (default 3)
+	RawInvalid      bool                          // jsontext.Value leaves may hold arbitrary bytes
+	TimeWide        bool                          // times outside year 0..9999
+	Zones           bool                          // times carry fixed zones with arbitrary (also hostile) names
+	ZoneMinutes     bool                          // times carry unnamed fixed zones at whole-minute offsets up to +-23:59
+	FallbackCollide bool                          // embedded map fallbacks repeat names of declared members (Marshal must refuse what was written twice)
 }
 
 var int64Edges = []int64{0, 1, -1, 2, 7, 10, 100, 127, 128, -128, -129, 255, 256, 32767, 32768, -32768, 65535, 65536, 1<<31 - 1, 1 << 31, -(1 << 31), 1<<32 - 1, 1 << 32, 1<<53 - 1, 1 << 53, 1<<53 + 1, -(1 << 53) - 1, math.MaxInt64, math.MinInt64, math.MaxInt64 - 1, math.MinInt64 + 1, 999999999, 1000000000, 1000000001, -999999999, -1000000000, -1000000001, 9999999999999, 1e15, 1e18, 1e18 + 1, -1e18}
@@ -543,7 +544,67 @@ func (g *valGen) val(d *Desc, budget int) Val {
 			}
 			v.Elems[i] = g.val(d.Fields[i].T, budget-1)
 		}
+		if g.vc.FallbackCollide && rapid.IntRange(0, 1).Draw(t, "collide?") == 0 {
+			g.collide(d, &v, budget)
+		}
 		return v
 	}
 	return Val{}
+}
+
+// memberNames lists the (approximate) JSON names of the members a struct declares, following Go embedding.
+func memberNames(d *Desc, depth int, out []string) []string {
+	if depth > 4 {
+		return out
+	}
+	for i := range d.Fields {
+		f := &d.Fields[i]
+		u := f.T
+		for u.K == "ptr" {
+			u = u.Elem
+		}
+		if f.HasOpt("embed") && u.K != "struct" {
+			continue
+		}
+		if (f.Embedded && (f.Tag == "" || strings.HasPrefix(f.Tag, ","))) || f.HasOpt("embed") {
+			if u.K == "struct" {
+				out = memberNames(u, depth+1, out)
+			}
+			continue
+		}
+		if n, ok := f.JSONName(); ok {
+			out = append(out, strings.Trim(n, "'"))
+		}
+	}
+	return out
+}
+
+// collide adds names of declared members to the keys of the struct's embedded map fallback: what Marshal
+// does when the fallback repeats a member that was (or, being omitted, was not) written.
+func (g *valGen) collide(d *Desc, v *Val, budget int) {
+	t := g.t
+	for i := range d.Fields {
+		f := &d.Fields[i]
+		if !f.HasOpt("embed") || f.T.K != "map" || f.T.Key.K != "string" {
+			continue
+		}
+		names := memberNames(d, 0, nil)
+		if len(names) == 0 {
+			return
+		}
+		fb := &v.Elems[i]
+		fb.Nil = false
+		for n := rapid.IntRange(1, 2).Draw(t, "ncollide"); n > 0; n-- {
+			name := pick(t, "collidename", names)
+			dup := false
+			for _, k := range fb.Keys {
+				dup = dup || string(k.S) == name
+			}
+			if !dup {
+				fb.Keys = append(fb.Keys, Val{S: []byte(name)})
+				fb.Elems = append(fb.Elems, g.val(f.T.Elem, min(budget-1, 1)))
+			}
+		}
+		return
+	}
 }
